@@ -17,15 +17,23 @@ let rec int_of_nat (x : nat) : int = match x with O -> 0 | S y -> 1 + int_of_nat
 
 let num s = if s = "F" then far else n_of_string s
 
-let mode_of = function "P" -> MPase | "C" -> MCase | "G" -> MGroup | _ -> MPlain
+let mode_of = function "P" -> MPase | "C" | "D" -> MCase | "G" -> MGroup | _ -> MPlain
 let mode_char = function MPlain -> 'N' | MPase -> 'P' | MCase -> 'C' | MGroup -> 'G'
 let b01 b = if b then '1' else '0'
 
+(* ghost data the model does not carry: the fabric letter of a CASE session (C = fabric 1,
+   D = fabric 2) and whether a slot went through ReservedSession::update (local session id set) *)
+let letter : (int, char) Hashtbl.t = Hashtbl.create 16
+let updated : (int, unit) Hashtbl.t = Hashtbl.create 16
+
 let table_str (t : tbl) =
   let buf = Buffer.create 128 in
+  let mode_char s = match s.s_mode with
+    | MCase -> (try Hashtbl.find letter (int_of_n s.s_id) with Not_found -> 'C')
+    | m -> mode_char m in
   List.iter (fun s ->
     let last = if N.ltb s.s_last far_half then string_of_n s.s_last else "F" in
-    Buffer.add_string buf (Printf.sprintf "%s%c%c%c@%s[" (string_of_n s.s_id) (mode_char s.s_mode)
+    Buffer.add_string buf (Printf.sprintf "%s%c%c%c@%s[" (string_of_n s.s_id) (mode_char s)
       (b01 s.s_reserved) (b01 s.s_expired) last);
     List.iteri (fun i e ->
       match e with
@@ -44,6 +52,8 @@ let run_d cap ops =
   let st = ref st_init in
   let buf = Buffer.create 1024 in
   let ev = Buffer.create 16 in
+  Hashtbl.reset letter; Hashtbl.reset updated;
+  let note id m = if m = "C" || m = "D" then Hashtbl.replace letter (int_of_n id) m.[0] in
   List.iter (fun o ->
     let p = Array.of_list (String.split_on_char ':' o) in
     let apply op = let (s', r) = step capn mx !st op in st := s'; r in
@@ -52,7 +62,9 @@ let run_d cap ops =
       | "a" -> (match apply (OAdd (num p.(1))) with RId id -> "id" ^ string_of_n id | _ -> "nospace")
       | "r" -> (match apply (OReserveNow (num p.(1))) with RId id -> "id" ^ string_of_n id | _ -> "nospace")
       | "R" -> (match apply (OReserve (num p.(1))) with RId id -> "id" ^ string_of_n id | _ -> "nospace")
-      | "u" -> (match apply (OUpdate (num p.(1), mode_of p.(2), num p.(3))) with ROk -> "ok" | RErr _ -> "nosess" | _ -> "none")
+      | "u" -> (match apply (OUpdate (num p.(1), mode_of p.(2), num p.(3))) with
+                | ROk -> note (num p.(1)) p.(2); Hashtbl.replace updated (int_of_n (num p.(1))) (); "ok"
+                | RErr _ -> "nosess" | _ -> "none")
       | "c" -> ignore (apply (OComplete (num p.(1)))); "ok"
       | "d" -> ignore (apply (ODropH (num p.(1), num p.(2)))); "-"
       | "x" -> (match apply (ORemove (num p.(1))) with ROk -> "ok" | _ -> "none")
@@ -68,7 +80,27 @@ let run_d cap ops =
       | "t" -> (match apply (OTouch (num p.(1), num p.(2))) with ROk -> "ok" | _ -> "none")
       | "E" -> ignore (apply (OSetExpired (num p.(1)))); "ok"
       | "L" -> ignore (apply (OSetLast (num p.(1), num p.(2)))); "ok"
-      | "M" -> (match apply (OSetMode (num p.(1), mode_of p.(2))) with ROk -> "ok" | _ -> "none")
+      | "M" -> (match apply (OSetMode (num p.(1), mode_of p.(2))) with ROk -> note (num p.(1)) p.(2); "ok" | _ -> "none")
+      | "f" ->
+          (* the sessions of fabric 1 (C, G) or 2 (D), as the harness created them *)
+          let fab = int_of_string p.(1) in
+          let ids = List.filter_map (fun s ->
+            let l = (match s.s_mode with
+              | MCase -> (try Hashtbl.find letter (int_of_n s.s_id) with Not_found -> 'C')
+              | MGroup -> 'G' | _ -> '-') in
+            if (fab = 1 && (l = 'C' || l = 'G')) || (fab = 2 && l = 'D') then Some s.s_id else None) !st.tb.t_sess in
+          ignore (apply (ORemoveSet (ids, (if p.(2) = "-" then None else Some (num p.(2)))))); "ok"
+      | "xr" ->
+          (* the session the receive path matches: the first unsecured, not reserved one that still
+             has local session id 0 *)
+          (match List.find_opt (fun s -> s.s_mode = MPlain && not s.s_reserved
+                                         && not (Hashtbl.mem updated (int_of_n s.s_id))) !st.tb.t_sess with
+           | None -> "none"
+           | Some s ->
+               (match apply (ORxExch (s.s_id, num p.(1))) with
+                | RIdx i -> "ix" ^ string_of_int (int_of_nat i)
+                | RId id -> "closed" ^ string_of_n id
+                | _ -> "none"))
       | "p" -> ignore (apply (ORemovePase (if p.(1) = "-" then None else Some (num p.(1))))); "ok"
       | "xa" ->
           (match apply (OExAdd (num p.(1), p.(2) = "1", num p.(3))) with
@@ -141,11 +173,24 @@ let run_e cap fields =
   let capn = nat_of cap in
   let kind = if field fields "k" = "P" then HPase else HCase in
   let beh = List.filter (fun x -> x <> "") (String.split_on_char '.' (field fields "beh")) in
-  let junk = (try int_of_string (field fields "j") with _ -> 0) in
+  let geti k = (try int_of_string (field fields k) with _ -> 0) in
+  let junk = geti "j" and cx = geti "cx" and age = geti "age" in
+  let (busy, idle_n) = (match String.split_on_char '.' (field fields "fill") with
+    | [a; b] -> (int_of_string a, int_of_string b) | _ -> (0, 0)) in
   let nd = ref node_init in
   let clock = ref 10 in
   let tick () = clock := !clock + 10; n_of_int !clock in
   let apply op = let (n', r) = nstep capn mx !nd op in nd := n'; r in
+  (* sessions that exist before the disturbance (established, [busy] of them carry an exchange) *)
+  let core_op o = let (c', r) = step capn mx !nd.core o in
+    nd := { core = c'; marker = !nd.marker; atts = !nd.atts; n_next = !nd.n_next }; r in
+  for i = 0 to busy + idle_n - 1 do
+    (match core_op (OAdd (tick ())) with
+     | RId id ->
+         ignore (core_op (OSetMode (id, MCase)));
+         if i < busy then ignore (core_op (OExAdd (id, false, tick ())))
+     | _ -> ())
+  done;
   (* a first handshake message: up to [tries] attempts while the device answers Busy *)
   let rec rx tries = if tries = 0 then None else
     match apply (NRx (kind, tick ())) with
@@ -153,13 +198,15 @@ let run_e cap fields =
     | _ -> rx (tries - 1) in
   let msgs_full = (match kind with HPase -> 2 | HCase -> 1) in
   (* an attempt that is good up to and including handshake message k (k = 1 is the first message),
-     after which the initiator is silent; [full] = it also acknowledges the final status *)
-  let attempt tries upto full =
+     after which the initiator is silent; [full] = it also acknowledges the final status;
+     [cancel] = the handler future is dropped after its first answer *)
+  let attempt ?(cancel=false) tries upto full =
     match rx tries with
     | None -> false
     | Some a ->
         (match apply (NAccept (a, VGood, tick ())) with
          | ROk ->
+             if cancel then begin ignore (apply (NCancel (a, false, tick ()))); false end else begin
              let ok = ref true in
              for _ = 2 to (min upto (msgs_full + 1)) do
                if !ok then (match apply (NMsg (a, VGood, tick ())) with ROk -> () | _ -> ok := false)
@@ -169,14 +216,25 @@ let run_e cap fields =
                (* the device's last message is never acknowledged (or a refusal was sent): the handler errs *)
                ignore (apply (NFail (a, false, tick ())));
                false
-             end
+             end end
+         | RErr c when int_of_n c = 4 || int_of_n c = 5 ->
+             (* Busy / SessionNotFound status: a complete initiator acknowledges it, a silent one does not *)
+             if full then ignore (apply (NAck (a, tick ()))) else ignore (apply (NFail (a, false, tick ())));
+             false
          | RErr _ ->
-             (* refusal status sent, or reserve failed; a pending status is never acknowledged *)
              ignore (apply (NFail (a, false, tick ())));
              false
          | _ -> false) in
+  (* a complete initiator retries (six tries in all) *)
+  let full_with_retries first_cancelled =
+    let ok = ref false and t = ref 0 in
+    while not !ok && !t < 6 do
+      ok := attempt ~cancel:(first_cancelled && !t = 0) 6 (msgs_full + 1) true;
+      incr t
+    done;
+    !ok in
   List.iter (fun b ->
-    if b = "f" then ignore (attempt 6 (msgs_full + 1) true)
+    if b = "f" then ignore (full_with_retries (cx > 0))
     else ignore (attempt 1 (int_of_string (String.sub b 1 (String.length b - 1))) false)) beh;
   for j = 0 to junk - 1 do
     if beh <> [] then begin
@@ -191,15 +249,19 @@ let run_e cap fields =
     end
   done;
   nd := sweeps capn mx (nat_of 64) (tick ()) !nd;
+  if age = 1 then clock := !clock + 61000;
+  let now = tick () in
   let t = !nd.core.tb in
-  let res = n_reserved t and xl = n_live t and xd = n_dropped t in
-  let marker = int_of_n (marker_obs (tick ()) !nd.marker) in
+  let res = n_reserved t and xl = int_of_n (n_live t) - busy and xd = n_dropped t in
+  let marker = int_of_n (marker_obs now !nd.marker) in
   let est = List.length (List.filter (fun s -> s.s_mode <> MPlain && not s.s_reserved) t.t_sess) in
   let plain = List.length (List.filter (fun s -> s.s_mode = MPlain && not s.s_reserved) t.t_sess) in
-  let probe = attempt 6 (msgs_full + 1) true in
-  Printf.sprintf "q=1 res=%s xl=%s xd=%s marker=%s rdv=00 probe=%s | est=%d plain=%d total=%d"
-    (string_of_n res) (string_of_n xl) (string_of_n xd)
-    (match marker with 0 -> "none" | 1 -> "expired" | _ -> "live")
+  let n_idle = List.length (List.filter (fun s -> idle now s) t.t_sess) in
+  let recl = (cap - List.length t.t_sess) + n_idle in
+  let probe = full_with_retries false in
+  Printf.sprintf "q=1 res=%s xl=%d xd=%s marker=%s rdv=00 recl=%d probe=%s | est=%d plain=%d total=%d"
+    (string_of_n res) xl (string_of_n xd)
+    (match marker with 0 -> "none" | 1 -> "expired" | _ -> "live") recl
     (if probe then "ok" else "fail") est plain (List.length t.t_sess)
 
 (* ---- monitor mode: the extracted clauses on the implementation's lines ---- *)
@@ -250,7 +312,10 @@ let spec_line f =
             (n_of_int marker) (n_of_int (Char.code rdv.[0] - 48)) (n_of_int (Char.code rdv.[1] - 48)) in
         let bad = ref [] in
         if g "q" <> "1" || not clean then bad := "not-clean-after-quiescence" :: !bad;
-        if g "probe" <> "ok" then bad := "probe-handshake-failed" :: !bad;
+        (match int_of_n (mon_probe (n_of_string (g "recl")) (g "probe" = "ok")) with
+         | 0 -> ()
+         | 1 -> bad := "probe-failed-one-reclaimable-slot" :: !bad
+         | _ -> bad := "probe-handshake-failed" :: !bad);
         Printf.printf "E %s %s\n" id (if !bad = [] then "ok" else String.concat "," !bad)
       end
   | _ -> ()
